@@ -6,6 +6,7 @@ import GormModel.Model.Scan
 import GormModel.Lemmas.Scan
 import GormModel.Model.SchemaAttrs
 import GormModel.Lemmas.SchemaAttrs
+import GormModel.Model.Serializer
 import GormModel.Gen.BackfillFacts
 import GormModel.Gen.SchemaDeclFacts
 namespace Gorm
@@ -721,6 +722,167 @@ theorem C03_schema_decl_facts :
     Gen.priorityLookups = ["schema.LookUpField(\"id\")", "schema.LookUpField(\"ID\")"] := by decide
 
 end Declarations
+
+/-! ## Round 5: Create from MAPS (callbacks/helper.go) and the built-in serializers (schema/serializer.go) -/
+section MapsAndSerializers
+open Gorm.Attrs Gorm.Ser
+
+private theorem mem_insertEnt {V : Type} (x y : String × V) (l : List (String × V)) : y ∈ insertEnt x l ↔ y = x ∨ y ∈ l := by
+  induction l with
+  | nil => simp [insertEnt]
+  | cons z l ih =>
+    unfold insertEnt
+    split
+    · simp
+    · simp [ih]; constructor
+      · rintro (h | h | h) <;> simp [h]
+      · rintro (h | h | h) <;> simp [h]
+
+private theorem mem_sortEnts {V : Type} (y : String × V) (l : List (String × V)) : y ∈ sortEnts l ↔ y ∈ l := by
+  induction l with
+  | nil => simp [sortEnts]
+  | cons x l ih => simp [sortEnts, mem_insertEnt, ih]
+
+private theorem length_insertEnt {V : Type} (x : String × V) (l : List (String × V)) : (insertEnt x l).length = l.length + 1 := by
+  induction l with
+  | nil => simp [insertEnt]
+  | cons z l ih => unfold insertEnt; split <;> simp [ih]
+
+private theorem length_sortEnts {V : Type} (l : List (String × V)) : (sortEnts l).length = l.length := by
+  induction l with
+  | nil => simp [sortEnts]
+  | cons x l ih => simp [sortEnts, length_insertEnt, ih]
+
+private theorem mem_insertStr (x y : String) (l : List String) : y ∈ insertStr x l ↔ y = x ∨ y ∈ l := by
+  induction l with
+  | nil => simp [insertStr]
+  | cons z l ih =>
+    unfold insertStr
+    split
+    · simp
+    · simp [ih]; constructor
+      · rintro (h | h | h) <;> simp [h]
+      · rintro (h | h | h) <;> simp [h]
+
+private theorem mem_sortStrings (y : String) (l : List String) : y ∈ sortStrings l ↔ y ∈ l := by
+  induction l with
+  | nil => simp [sortStrings]
+  | cons x l ih => simp [sortStrings, mem_insertStr, ih]
+
+/-- A GIVEN KEY IS WRITTEN AS GIVEN (one map, with or without model, any Select / Omit): every entry of the map whose
+    column may be written appears in the INSERT under that column WITH THE VALUE THE MAP HOLDS — for every value `v` of
+    the (opaque) alphabet, i.e. also for an untyped nil, a typed nil pointer and every zero: the conversion never looks at
+    the value, so nothing is dropped or replaced by the column's DEFAULT. -/
+theorem C03_map_create_writes_given {V : Type} (s : Option SchemaAttrs) (sel om : List String) (m : List (String × V))
+    (k : String) (v : V) (h : (k, v) ∈ m) (ha : mapColAllowed s sel om (mapKeyCol s k) = true) :
+    (mapKeyCol s k, v) ∈ mapCreateOne s sel om m := by
+  unfold mapCreateOne
+  rw [List.mem_filterMap]
+  exact ⟨(k, v), (mem_sortEnts _ _).2 h, by simp [ha]⟩
+
+/-- … AND ONLY GIVEN KEYS ARE WRITTEN: a column of the INSERT stands for a key the map holds, with that key's value —
+    a column whose key is MISSING from the map is not mentioned, so the database applies the column's DEFAULT. -/
+theorem C03_map_create_only_given {V : Type} (s : Option SchemaAttrs) (sel om : List String) (m : List (String × V))
+    (c : String) (v : V) (h : (c, v) ∈ mapCreateOne s sel om m) :
+    ∃ k, (k, v) ∈ m ∧ c = mapKeyCol s k ∧ mapColAllowed s sel om c = true := by
+  unfold mapCreateOne at h
+  rw [List.mem_filterMap] at h
+  obtain ⟨⟨k, w⟩, hm, hf⟩ := h
+  by_cases ha : mapColAllowed s sel om (mapKeyCol s k) = true
+  · simp [ha] at hf
+    exact ⟨k, by rw [← hf.2]; exact (mem_sortEnts _ _).1 hm, hf.1.symm, by rw [← hf.1]; exact ha⟩
+  · simp [ha] at hf
+
+/-- NIL IS A VALUE: with `none` standing for Go's untyped nil, an explicit nil entry is bound under its column (NULL is
+    stored, whatever DEFAULT the column has), and through `Table("t")` alone NO entry of the map is dropped at all. -/
+theorem C03_map_create_nil_written {α : Type} (s : Option SchemaAttrs) (sel om : List String) (m : List (String × Option α)) :
+    (∀ k, (k, none) ∈ m → mapColAllowed s sel om (mapKeyCol s k) = true → (mapKeyCol s k, none) ∈ mapCreateOne s sel om m) ∧
+    (mapCreateOne none [] [] m).length = m.length := by
+  refine ⟨fun k h ha => C03_map_create_writes_given s sel om m k none h ha, ?_⟩
+  unfold mapCreateOne
+  have : ∀ l : List (String × Option α), (l.filterMap (fun e =>
+      let c := mapKeyCol none e.1
+      if mapColAllowed none [] [] c then some (c, e.2) else none)).length = l.length := by
+    intro l
+    induction l with
+    | nil => rfl
+    | cons x l ih => simp [mapColAllowed, List.filterMap_cons, ih]
+  rw [this, length_sortEnts]
+
+/-- SLICES OF MAPS: an entry of an element whose column may be written makes that column part of the INSERT, and the
+    element's VALUES row holds the entry's value under it — again for every value, nil included (hypothesis: no other key
+    of the same element is written to the same column; Go would pick one of them in map-iteration order). -/
+theorem C03_maps_create_writes_given {V : Type} (s : Option SchemaAttrs) (sel om : List String) (ms : List (List (String × V)))
+    (m : List (String × V)) (hm : m ∈ ms) (k : String) (v : V) (h : (k, v) ∈ m)
+    (ha : mapColAllowed s sel om (mapKeyCol s k) = true)
+    (hinj : ∀ e ∈ m, mapKeyCol s e.1 = mapKeyCol s k → e = (k, v)) :
+    mapKeyCol s k ∈ mapCreateCols s sel om ms ∧
+    (m.find? (fun e => mapKeyCol s e.1 == mapKeyCol s k)).map (·.2) = some v := by
+  constructor
+  · unfold mapCreateCols
+    rw [mem_sortStrings, List.mem_eraseDups, List.mem_filter]
+    refine ⟨?_, ha⟩
+    rw [List.mem_flatten]
+    exact ⟨m.map (fun e => mapKeyCol s e.1), List.mem_map.2 ⟨m, hm, rfl⟩, List.mem_map.2 ⟨(k, v), h, rfl⟩⟩
+  · clear hm
+    induction m with
+    | nil => cases h
+    | cons x l ih =>
+      by_cases hx : mapKeyCol s x.1 = mapKeyCol s k
+      · have := hinj x (by simp) hx
+        simp [List.find?_cons, this]
+      · have hx' : (mapKeyCol s x.1 == mapKeyCol s k) = false := by simp [hx]
+        simp only [List.find?_cons, hx']
+        have hk : (k, v) ∈ l := by
+          rcases List.mem_cons.1 h with h | h
+          · exact absurd (by rw [← h]) hx
+          · exact h
+        exact ih hk (fun e he => hinj e (List.mem_cons_of_mem _ he))
+
+/-- `serializer:unixtime`, Create → First into a fresh struct: EVERY field value comes back — plain integers incl. 0 and
+    negatives, nil pointers, and POINTERS TO ZERO (the epoch is a value, not an absent one). -/
+theorem C03_unixtime_roundtrip (f : UField) : unixRoundTrip f = some f := by
+  cases f with
+  | val n => rfl
+  | ptr p => cases p <;> rfl
+
+/-- … because NULL is written for the nil POINTER and for nothing else: the pointee is never inspected. -/
+theorem C03_unixtime_null_iff_nil_pointer (f : UField) : unixValue f = .null ↔ f = .ptr none := by
+  cases f with
+  | val n => simp [unixValue]
+  | ptr p => cases p <;> simp [unixValue]
+
+/-- `serializer:json`, Create → First into a fresh struct, for ANY codec that decodes what it encodes: the value comes
+    back provided `null` is the encoding of the type's zero value only (nil pointer / slice / map) and no encoding is
+    empty — `[]`, `{}`, `""`, `0` are not `null`, so empty-but-non-nil values and pointers to zero stay what they are;
+    under NOT NULL the `null` is stored as '' and read back as the zero value all the same. -/
+theorem C03_json_roundtrip {α : Type} (c : Codec α) (zero : α) (notNull : Bool) (v : α)
+    (hdec : c.dec (c.enc v) = some v) (hnull : c.enc v = "null" → v = zero) (hne : c.enc v ≠ "") :
+    jsonRoundTrip c zero notNull v = some v := by
+  unfold jsonRoundTrip jsonValue
+  by_cases h : c.enc v = "null"
+  · have hv := hnull h
+    subst hv
+    cases notNull <;> simp [h, jsonScan]
+  · have : (c.enc v).isEmpty = false := by
+      cases hh : (c.enc v).isEmpty
+      · rfl
+      · exact absurd (String.isEmpty_iff.1 hh) hne
+    simp [h, jsonScan, this, hdec]
+
+/-- Scan of the json / gob serializers ASSIGNS the zero value for NULL and for empty bytes: a destination that held an
+    earlier row's value does not keep it. -/
+theorem C03_serializer_scan_overwrites :
+    jsonScan .null = .zero ∧ jsonScan (.text "") = .zero ∧ jsonScan (.blob []) = .zero ∧
+    gobScan .null = .zero ∧ gobScan (.blob []) = .zero := by decide
+
+end MapsAndSerializers
+
+/-- non-vacuity (round 5): a map with an explicit nil for a column, created through Table("t"): the nil is bound; the
+    json law's hypotheses hold for a toy codec -/
+example : Attrs.mapCreateOne (V := Option Nat) none [] [] [("nick", none), ("id", some 7)] = [("id", some 7), ("nick", none)] := by decide
+example : Attrs.mapCreateMany (V := Nat) none [] [] [[("b", 1)], [("a", 2), ("b", 3)]] = (["a", "b"], [[none, some 1], [some 2, some 3]]) := by decide
+example : Ser.unixRoundTrip (.ptr (some 0)) = some (.ptr (some 0)) ∧ Ser.unixValue (.ptr (some 0)) = .time 0 := by decide
 
 /-- non-vacuity: representable values exist at the boundaries; the partial theorem's hypothesis is satisfiable
     by non-trivial batches -/
